@@ -51,8 +51,9 @@ func C15(r *core.Report) {
 }
 
 // c15Ownership (R2).
-func c15Ownership(r *core.Report, run *core.Func) {
-	const rule = "C15.R2"
+func c15Ownership(r *core.Report, run *core.Func) { bufferOwnership(r, "C15.R2", run) }
+
+func bufferOwnership(r *core.Report, rule string, run *core.Func) {
 	p := r.Prog
 	info := run.Pkg.TypesInfo
 	g := p.Graph(run)
@@ -286,6 +287,19 @@ func c15Drain(r *core.Report, run *core.Func) {
 				}
 			}
 		}
+	}
+	// (b2) single consumer: the callback wrapper is invoked from the flusher goroutine only
+	if fl := p.Fn("accum.(*ObjectAccumulator).flush"); fl != nil {
+		bad := ""
+		nc := 0
+		for _, cs := range p.Callers(fl) {
+			nc++
+			if root := cs.In.Root(); root.Key != "accum.(*ObjectAccumulator).startFlusher" {
+				bad = cs.In.Key + " at " + p.Rel(cs.Call.Pos())
+			}
+		}
+		r.Check(nc > 0 && bad == "", "C15.R3", fl.Key+"#called-from-the-flusher-only", posP(r, fl.Pos()), "groups are delivered to the callback from the flusher goroutine only",
+			"the callback is also invoked from "+bad+": groups can be delivered out of file order and concurrently with the flusher")
 	}
 	// (c) Run: deferred shutdown waits before closing
 	info := run.Pkg.TypesInfo
